@@ -8,7 +8,7 @@ for f in selfmut/*.diff; do
     revert-D2|revert-D3) ids="C14";;
     c06-*) ids="C06";;
     c07-*) ids="C07";;
-    c12-*) ids="C12";; c14-*) ids="C14";; c17-*) ids="C17";; c20-*) ids="C20";; c13-args-*) ids="C13";; c15-*) ids="C15";; c16-children*) ids="C16";;
+    c12-*) ids="C12";; c14-*) ids="C14";; c17-*) ids="C17";; c20-*) ids="C20";; c13-args-*) ids="C13";; c15-*) ids="C15";; c10-shared*) ids="C10";; c16-children*) ids="C16";;
     *) p=${b%%-*}; ids=$(echo $p | tr a-z A-Z);;
   esac
   if [ -n "$1" ] && [[ "$b" != $1 ]]; then continue; fi
